@@ -4,12 +4,13 @@ CONSTANTS
   MaxGroups = 3
   MaxAlts = 3
   Names <- NamesTwo
-  Universe <- Univ
+  Sorted = TRUE
+  Universe <- UnivSmall
   V2Depth = 0
-  V2Operands <- OpsV2
+  V2Operands <- OpsPlain
   NB = 1
   Styles <- TwoStyles
-  EmitMod = 128
+  EmitMod = 16
 INVARIANT ReadBack
 INVARIANT V1Algorithm
 INVARIANT AutoOnV1
